@@ -944,6 +944,36 @@ fn run_api(r: &mut Rng, n: u64, group: &str) {
                     chk("lookup at token", toks.iter().all(|t| { let (l, c) = t.get_dst(); match sm.lookup_token(l, c) { Some(f) => f.get_dst() == (l, c) && Some(f.get_raw_token()) == toks.iter().find(|x| x.get_dst() == (l, c)).map(|x| x.get_raw_token()), None => false } }));
                     let mut it = sm.tokens(); if let Some(t) = toks.last() { let (l, c) = t.get_dst(); chk("seek", it.seek(l, c) && it.next().map(|x| x.get_dst() > (l, c) || x.get_dst() == (l, c)).unwrap_or(true)); }
                 }
+                "history" => {  // C04 over histories of map-producing operations: after every step the tokens are ordered and lookups are right
+                    let mut sm = gen_map(r, false); descr = map_in(&sm);
+                    // independent lookup: linear scan for the greatest position <= query, first token among equal positions
+                    let spec_lookup = |m: &sourcemap::SourceMap, q: (u32, u32)| -> Option<sourcemap::RawToken> { let mut best: Option<(u32, u32)> = None;
+                        for t in m.tokens() { let k = t.get_dst(); if k <= q && best.map_or(true, |b| k > b) { best = Some(k); } }
+                        best.and_then(|b| m.tokens().find(|t| t.get_dst() == b).map(|t| t.get_raw_token())) };
+                    // on an exact hit the first token at that position; otherwise any token at the greatest position not after the query
+                    let agrees = |m: &sourcemap::SourceMap, q: (u32, u32)| -> bool { match (m.lookup_token(q.0, q.1), spec_lookup(m, q)) { (None, None) => true,
+                        (Some(t), Some(w)) => if (w.dst_line, w.dst_col) == q { t.get_raw_token() == w } else { t.get_dst() == (w.dst_line, w.dst_col) }, _ => false } };
+                    let steps = 1 + r.below(5);
+                    for step in 0..steps {
+                        let name = match r.below(7) {
+                            0 => { sm = sm.rewrite(&sourcemap::RewriteOptions::default()).unwrap(); "rewrite" }
+                            1 => { let adj = build_map(1, 0, &[Tok { dl: 0, dc: 0, sl: 0, sc: 0, src: 0, name: !0, range: false }, Tok { dl: 0, dc: 3 + r.below(4) as u32, sl: 0, sc: 8, src: 0, name: !0, range: false }, Tok { dl: 1, dc: 2, sl: 2, sc: 0, src: 0, name: !0, range: false }]);
+                                   // adjust_mappings computes columns in i32: only for maps whose coordinates stay below 2^30 (C10's domain)
+                                   if sm.tokens().all(|t| t.get_dst_col() < (1 << 30) && t.get_dst_line() < (1 << 30)) { for q in [(0u32, 1u32), (1, 1)] { let _ = sm.lookup_token(q.0, q.1); } sm.adjust_mappings(&adj); } "adjust_mappings" }
+                            2 => { let ix = sourcemap::SourceMapIndex::new(None, vec![sourcemap::SourceMapSection::new((r.below(2) as u32, r.below(3) as u32), None, Some(sourcemap::DecodedMap::Regular(sm.clone())))]); match ix.flatten() { Ok(f) => { sm = f; } Err(_) => {} } "flatten" }
+                            3 => { if sm.tokens().all(|t| t.get_dst_line() < 100_000) { let mut o = vec![]; sm.to_writer(&mut o).unwrap(); sm = sourcemap::SourceMap::from_slice(&o).unwrap(); } "write+read" }
+                            4 => { sm.set_source_root(Some(["", "r", "/"][r.below(3) as usize])); "set_source_root" }
+                            5 => { sm = sm.rewrite(&sourcemap::RewriteOptions { with_names: false, strip_prefixes: &["/abs"], ..Default::default() }).unwrap(); "rewrite(no names, strip)" }
+                            _ => { let mut raw: Vec<sourcemap::RawToken> = sm.tokens().map(|t| t.get_raw_token()).collect(); raw.reverse(); let names: Vec<std::sync::Arc<str>> = sm.names().map(|x| x.into()).collect(); let srcs: Vec<std::sync::Arc<str>> = (0..sm.get_source_count()).map(|k| sm.get_source(k).unwrap().into()).collect();
+                                   sm = sourcemap::SourceMap::new(None, raw, names, srcs, None); "new(reversed tokens)" }
+                        };
+                        let toks: Vec<sourcemap::Token> = sm.tokens().collect();
+                        chk(&format!("step{} {}: ordered", step, name), toks.windows(2).all(|w| w[0].get_dst() <= w[1].get_dst()));
+                        chk(&format!("step{} {}: get_token", step, name), toks.iter().enumerate().all(|(k, t)| sm.get_token(k).map(|x| x.get_raw_token()) == Some(t.get_raw_token())) && sm.get_token_count() as usize == toks.len());
+                        for q in [(0u32, 0u32), (0, 4), (0, 9), (1, 0), (1, 3), (2, 2), (5, 5), (u32::MAX, u32::MAX)] {
+                            chk(&format!("step{} {}: lookup {:?}", step, name, q), agrees(&sm, q)); }
+                    }
+                }
                 "rewrite" => {  // C09 / C08: remove_names, flatten_and_rewrite
                     let sm = gen_map(r, false); descr = map_in(&sm);
                     let mut nn = sm.clone(); nn.remove_names();
@@ -1082,6 +1112,7 @@ fn main() {
         "keys" => run_keys(&mut r, n),
         "api_tokens" => run_api(&mut r, n, "tokens"),
         "api_rewrite" => run_api(&mut r, n, "rewrite"),
+        "api_history" => run_api(&mut r, n, "history"),
         "api_reader" => run_api(&mut r, n, "reader"),
         "api_builder" => run_api(&mut r, n, "builder"),
         "api_view" => run_api(&mut r, n, "view"),
